@@ -114,7 +114,7 @@ def exCfg21 : Cfg Nat :=
     exclLibs := true }
 def exO : Opts := { libs := [], mtimeCheck := true, cache := true, codegen := false, expandMx := false, rest := [] }
 def exW21 : World Nat := ⟨fun f => if f = 0 then [⟨"M.mo", 3, 7⟩] else [], none, 1⟩
-theorem exLawful21 : Lawful exCfg21 := by
+example : Lawful exCfg21 := by
   intro n; by_cases h : n < 2 <;> simp [exCfg21, convert, caughtClasses, h]
 -- the hypotheses are satisfiable; and the crash really leaves a damaged file that is repaired
 example : FreshInv exCfg21 [] exW21 ∧ exO.norm.mtimeCheck = true := ⟨(by intro c hc; cases hc), rfl⟩
@@ -136,8 +136,12 @@ namespace PymocaVerif.CacheFile
     call that is about to load sees the initial file, or exactly a prefix of the bytes `B`
     the other call is writing (possibly empty, possibly all of it) — never anything else.
     With `crash_safe`/`truncation_safe` (a prefix is repaired, a complete fresh file is a
-    correct hit) every reader therefore returns a correct model. -/
-theorem reader_sees_initial_or_prefix (B : Nat → Nat) (N : Nat) (valid : File → Bool)
+    correct hit) every reader therefore returns a correct model.
+    PARTIAL: both calls write the same byte string `B` (same sources, options, version —
+    the harness checks that the pickle is deterministic).  Missing: two calls with different
+    options (different bytes), more than two concurrent calls, a reader whose `pickle.load`
+    is itself interleaved with writes, and shared libraries torn by the linker. -/
+theorem reader_sees_initial_or_prefix_partial (B : Nat → Nat) (N : Nat) (valid : File → Bool)
     (f0 : Option File) (acts : List Act) (s : Sys) (i : Bool)
     (hrun : runActs B N valid (init f0) acts = some s) (hi : s.ph i = .start) :
     s.file = f0 ∨ ∃ f p, s.file = some f ∧ p ≤ N ∧ IsPre f B p := by
@@ -160,8 +164,10 @@ theorem reader_sees_initial_or_prefix (B : Nat → Nat) (N : Nat) (valid : File 
     | true => exact (hg.fresh hother hio).1
 
 /-- When both calls have returned and at least one of them wrote, the file holds exactly `B`:
-    an in-progress or overlapping write leaves nothing behind that could break later loads. -/
-theorem final_file_complete (B : Nat → Nat) (N : Nat) (valid : File → Bool)
+    an in-progress or overlapping write leaves nothing behind that could break later loads.
+    PARTIAL: same restriction as above (one byte string `B` for both writers); with different
+    bytes the final file can be a splice, which only the thorough tier samples on the real code. -/
+theorem final_file_complete_partial (B : Nat → Nat) (N : Nat) (valid : File → Bool)
     (f0 : Option File) (acts : List Act) (s : Sys) (i : Bool)
     (hrun : runActs B N valid (init f0) acts = some s)
     (hdone : ∀ j, ∃ b, s.ph j = .done b) (hi : s.ph i = .done false) :
